@@ -294,16 +294,17 @@ pub fn run(ch: &mut Ch, verbose: bool) -> Outcome {
             }
             // what was served must be the right bytes of the current version
             if let (Some(rb), Some((id, len))) = (a.reply.as_ref(), cur) {
-                if let Ok(p) = coap_lite::Packet::from_bytes(rb) {
-                    if u8::from(p.header.code) == 0x45 {
-                        if let Some(Ok(b)) = p.get_first_option_as::<coap_lite::block_handler::BlockValue>(coap_lite::CoapOption::Block2) {
+                if let Some(p) = crate::refparse::accept(rb) {
+                    if p.code == 0x45 {
+                        if let Some((num, more, szx)) = p.block(23) {
                             let body = gen_body(id, len);
-                            let off = b.num as usize * b.size();
-                            let end = (off + b.size()).min(body.len());
+                            let size = szx_size(szx);
+                            let off = num as usize * size;
+                            let end = (off + size).min(body.len());
                             if off <= body.len() && p.payload != body[off..end] {
-                                viol.push(Violation::new("C20", "retained", format!("block {} served after {:?} ns idle does not hold the bytes of the response it belongs to", b.num, idle)).with_sig("retained-bytes"));
+                                viol.push(Violation::new("C20", "retained", format!("block {} served after {:?} ns idle does not hold the bytes of the response it belongs to", num, idle)).with_sig("retained-bytes"));
                             }
-                            open = b.more;
+                            open = more;
                         }
                     }
                 }
